@@ -90,7 +90,7 @@ def one(req: dict, variant: str) -> dict:
         # only if absent, so templates using it are unkeyed by construction: extras => hash)
         # B: a long absolute path (> 150 characters) with spaces and non-ASCII characters
         mid = ("deeply nested checkout of the project " + "x" * 40 + " caf\u00e9", "build-tree-" + "y" * 50) if variant == "B" else ()
-        root = os.path.join(top, *mid, "w", "proj")
+        root = os.path.join(top, *mid, "w", req.get("dirname") or "proj")
         lay_out(root, req)
         if variant == "B":
             # B: a crowded source directory (unrelated files next to the sources)
